@@ -52,7 +52,7 @@ Numbered(n) == n.name = "" /\ n.res = "value"
 
 Ent(nm)        == [name |-> nm, id |-> 0, res |-> "value"]          \* global, param
 Inst(nm, r)    == [name |-> nm, id |-> 0, res |-> r]
-Term(k, nm, r) == [k |-> k, name |-> nm, id |-> 0, res |-> r]
+Term(k, nm, r) == [k |-> k, name |-> nm, id |-> 0, res |-> r, tgt |-> 0]   \* tgt: successor block (IRState)
 NoTerm         == Term("none", "", "none")
 Block(nm, is, t) == [name |-> nm, id |-> 0, res |-> "value", insts |-> is, term |-> t]
 
